@@ -130,12 +130,37 @@ def run(rep, tier, seed, model_ok=True, effort=1):
             cmsg += r.choice([" OLD -> NEW", " NEW", " (OLD)", " NEWER OLDEST NEW_x"])
             if r.random() < 0.5:
                 tmsg += r.choice([" NEW RELEASE", " replaces OLD"])
+        if r.random() < 0.1:
+            # a template that str.format rejects (unknown / positional field, stray brace): nothing may be written, committed or tagged
+            bad = r.choice([" ${CHANGELOG_URL}", " {0}", " {date}", " }", " {", " {new_version"])
+            if r.random() < 0.5:
+                tmsg += bad
+            else:
+                cmsg += bad
+        if i == 3:
+            from_cli, cmsg, tmsg = False, "bump to {new_version}", "see ${CHANGELOG_URL}"
+        if i == 4:
+            from_cli, cmsg, tmsg = True, "bump to NEW", "{0}"
+        forced_cfg = i < 3
+        if forced_cfg:
+            from_cli = False
+            cmsg, tmsg = [("bump {old_version} -> {new_version} (coverage 100%% of %(lines)s)", "[%d files]"), ("100% done {new_version}", "50%"),
+                          ("{new_version} %(new_version)s", "%%")][i]
         fname = r.choice(["a.txt", "a b.txt", "it's.txt", "d$x.txt", "-dash.txt", 'q"uote.txt', "ünï.txt", "back\\slash.txt", "semi;colon.txt"])
         strip = lambda s: s.strip("'\" ")
         cfg_c, cfg_t = (None, None) if from_cli else (cmsg, tmsg)
         if not from_cli and (strip(cmsg) != cmsg or strip(tmsg) != tmsg or not cmsg or not tmsg):
             continue
-        prj = project.TempProject("MAJOR.MINOR.PATCH", "1.2.3", files={fname: ["ver = {version}"]}, commit=True, tag=True, push=False, vcs=vcs,
+        fmt = "bumpver.toml"
+        if not from_cli and "\n" not in cmsg + tmsg and "\r" not in cmsg + tmsg and (forced_cfg or r.random() < 0.45):
+            # the ini format has no escapes: what stands after "commit_message =" is the template (percent signs included)
+            fmt, fname = "setup.cfg", "a.txt"
+            if r.random() < 0.5 and not forced_cfg:
+                cmsg += r.choice([" 100%", " %% done", " %(lines)s", " [%d files]"])
+                tmsg += r.choice(["", " %", " 50%%"])
+                cfg_c, cfg_t = cmsg, tmsg
+        rep.count("update-config=%s" % fmt)
+        prj = project.TempProject("MAJOR.MINOR.PATCH", "1.2.3", files={fname: ["ver = {version}"]}, commit=True, tag=True, push=False, vcs=vcs, fmt=fmt,
                                   vcs_cfg=dict(tags=[], status="", remote=None), commit_message=cfg_c, tag_message=cfg_t)
         with prj:
             if prj.cfg_error(impl):
@@ -156,8 +181,12 @@ def run(rep, tier, seed, model_ok=True, effort=1):
             rep.case(("update", vcs, cmsg, tmsg, fname, from_cli), nontrivial=any(c in cmsg + tmsg + fname for c in "'\"\\ $`\n"))
             rep.count("update-%s-exit=%s" % (vcs, "0" if code == 0 else "nonzero"))
             inp = dict(vcs=vcs, commit_message=cmsg, tag_message=tmsg, file=fname, from_cli=from_cli, args=args, exit=code, argv=[e["argv"] for e in log if e["key"] in ("add_path", "commit", "tag")])
-            msg_items.append("(%s,%s,%s,%s)" % (cs(cmsg), cb_(from_cli), cos(want_c), cs("x")))
-            msg_meta.append(dict(template=cmsg, from_cli=from_cli, want=want_c))
+            try:
+                want_c_alone = expected_message(cmsg, "1.2.3", "1.2.4", from_cli)
+            except (KeyError, ValueError, IndexError, AttributeError):
+                want_c_alone = None
+            msg_items.append("(%s,%s,%s,%s)" % (cs(cmsg), cb_(from_cli), cos(want_c_alone), cs("x")))
+            msg_meta.append(dict(template=cmsg, from_cli=from_cli, want=want_c_alone))
             if want_c is None:
                 if code == 0 or after != before:
                     rep.violation("invalid message template: update did not stop before changing anything", input=inp, **{"class": "bad-template"})
@@ -166,7 +195,7 @@ def run(rep, tier, seed, model_ok=True, effort=1):
                 rep.violation("update failed on a message/path with special characters", input=dict(inp, logs=logs[-3:]), **{"class": "special-chars-fail"})
                 continue
             adds = [e["argv"] for e in log if e["key"] == "add_path"]
-            want_adds = sorted([[("add"), "--update", p] if vcs == "fakegit" else ["add", p] for p in (fname, "bumpver.toml")])
+            want_adds = sorted([[("add"), "--update", p] if vcs == "fakegit" else ["add", p] for p in (fname, fmt)])
             if sorted(adds) != want_adds:
                 rep.violation("staged paths differ from the configured paths", input=dict(inp, want=want_adds, got=adds), **{"class": "path-altered"})
             commits = [e for e in log if e["key"] == "commit"]
